@@ -1,6 +1,7 @@
 import Fdo.Cbor.TypedFrag
 import Fdo.Cbor.Proofs
 import Fdo.Cbor.Fuel
+import Fdo.Cbor.HdrProofs
 /-
 decode ∘ encode = id for the typed codec on the fragment of `TypedFrag.lean`.
 -/
@@ -113,6 +114,12 @@ theorem enc_notNull (g : Nat) (s : Schema) (v : Val) (b r : Bytes) (hn : s.never
       cases h1 : encodeS g e x with
       | none => simp [h1] at henc
       | some c => simp [h1] at henc; subst henc; rw [List.append_assoc]; exact isNullHead_encHead 6 _ _ (by omega)
+    case tagNum n e =>
+      cases v <;> simp [encodeS] at henc
+      rename_i m x
+      cases h1 : encodeS g e x with
+      | none => simp [h1] at henc
+      | some c => simp [h1] at henc; subst henc; rw [List.append_assoc]; exact isNullHead_encHead 6 _ _ (by omega)
     case bstr e =>
       cases h1 : encodeS g e v with
       | none => exfalso; cases v <;> simp [encodeS, h1] at henc
@@ -128,6 +135,430 @@ theorem enc_notNull (g : Nat) (s : Schema) (v : Val) (b r : Bytes) (hn : s.never
     case wrapBytes =>
       cases v <;> simp [encodeS] at henc
       subst henc; rw [List.append_assoc]; exact isNullHead_encHead 2 _ _ (by omega)
+
+
+/-- encodings in the fragment are never empty -/
+theorem enc_pos : ∀ (g : Nat) (s : Schema) (v : Val) (b : Bytes), s.inFragment = true → encodeS g s v = some b → 1 ≤ b.length := by
+  intro g
+  induction g with
+  | zero => intro s v b _ h; simp [encodeS] at h
+  | succ g ih =>
+    intro s v b hs henc
+    have hh := fun mt n => encHead_length_pos mt n
+    cases s <;> simp [Schema.inFragment] at hs
+    case uint max => cases v <;> simp [encodeS] at henc; subst henc; exact hh _ _
+    case int bits =>
+      cases v <;> simp [encodeS] at henc
+      subst henc; split <;> exact hh _ _
+    case bool => cases v <;> simp [encodeS] at henc; subst henc; simp
+    case bytes => cases v <;> simp [encodeS] at henc; subst henc; have := hh 2 ‹Bytes›.length; simp; omega
+    case text => cases v <;> simp [encodeS] at henc; subst henc; have := hh 3 ‹Bytes›.length; simp; omega
+    case fixed n => cases v <;> simp [encodeS] at henc; subst henc; have := hh 2 ‹Bytes›.length; simp; omega
+    case wrapBytes => cases v <;> simp [encodeS] at henc; subst henc; have := hh 2 ‹Bytes›.length; simp; omega
+    case slice e =>
+      cases v <;> simp [encodeS] at henc
+      rename_i vs
+      cases h1 : encodeList g e vs with
+      | none => simp [h1] at henc
+      | some c => simp [h1] at henc; subst henc; have := hh 4 vs.length; simp; omega
+    case struct fs =>
+      cases v <;> simp [encodeS] at henc
+      rename_i vs
+      cases h1 : encodeFields g fs vs with
+      | none => simp [h1] at henc
+      | some q => simp [h1] at henc; subst henc; have := hh 4 q.1; simp; omega
+    case tagAny e =>
+      cases v <;> simp [encodeS] at henc
+      rename_i n x
+      cases h1 : encodeS g e x with
+      | none => simp [h1] at henc
+      | some c => simp [h1] at henc; subst henc; have := hh 6 n; simp; omega
+    case tagNum n e =>
+      cases v <;> simp [encodeS] at henc
+      rename_i m x
+      cases h1 : encodeS g e x with
+      | none => simp [h1] at henc
+      | some c => simp [h1] at henc; subst henc; have := hh 6 m; simp; omega
+    case bstr e =>
+      cases h1 : encodeS g e v with
+      | none => exfalso; cases v <;> simp [encodeS, h1] at henc
+      | some c =>
+        have hb : b = encHead 2 c.length ++ c := by cases v <;> (simp [encodeS, h1] at henc; exact henc.symm)
+        subst hb; have := hh 2 c.length; simp; omega
+    case wrap e =>
+      cases h1 : encodeS g e v with
+      | none => exfalso; cases v <;> simp [encodeS, h1] at henc
+      | some c =>
+        have hb : b = encHead 2 c.length ++ c := by cases v <;> (simp [encodeS, h1] at henc; exact henc.symm)
+        subst hb; have := hh 2 c.length; simp; omega
+    case ptr e =>
+      cases v <;> simp [encodeS] at henc
+      · subst henc; simp
+      · exact ih e _ b hs.1 henc
+    case raw =>
+      cases v <;> simp [encodeS] at henc
+      rename_i rb
+      subst henc
+      cases rb <;> simp
+
+/-! ### typed encodings are single well-formed items for the untyped decoder -/
+
+def WS (g : Nat) : Prop :=
+  ∀ (s : Schema) (v : Val) (b r : Bytes) (dc dr F : Nat), s.inFragment = true → encodeS g s v = some b →
+    conf g dc s v = true → wconf g dr s v = true → b.length < 18446744073709551616 → 2 * b.length + 1 + s.ptrDepth ≤ F →
+    ∃ x, decode F dr (b ++ r) = some (x, r)
+
+def WL (g : Nat) : Prop :=
+  ∀ (e : Schema) (vs : List Val) (b r : Bytes) (dc dr F : Nat), e.inFragment = true → encodeList g e vs = some b →
+    confList g dc e vs = true → wconfList g dr e vs = true → b.length < 18446744073709551616 → 2 * b.length + 2 + e.ptrDepth ≤ F →
+    ∃ xs, decodeItems F dr vs.length (b ++ r) = some (xs, r)
+
+def WFld (g : Nat) : Prop :=
+  ∀ (fs : Fields) (vs : List Val) (cnt : Nat) (b r : Bytes) (dc dr F : Nat), fs.inFragment = true →
+    encodeFields g fs vs = some (cnt, b) → confFields g dc fs vs = true → wconfFields g dr fs vs = true →
+    b.length < 18446744073709551616 → 2 * b.length + 2 + fs.ptrDepth ≤ F →
+    cnt ≤ fs.slots ∧ ∃ xs, decodeItems F dr cnt (b ++ r) = some (xs, r)
+
+theorem wL_step (g : Nat) (hS : WS g) (hL : WL g) : WL (g + 1) := by
+  intro e vs b r dc dr F he henc hconf hw hlen hF
+  cases vs with
+  | nil =>
+    simp [encodeList] at henc; subst henc
+    exact ⟨.nil, by cases F <;> simp [decodeItems]⟩
+  | cons v vs =>
+    simp only [encodeList] at henc
+    cases h1 : encodeS g e v with
+    | none => simp [h1] at henc
+    | some a =>
+      cases h2 : encodeList g e vs with
+      | none => simp [h1, h2] at henc
+      | some c =>
+        simp [h1, h2] at henc; subst henc
+        simp only [confList, Bool.and_eq_true] at hconf
+        simp only [wconfList, Bool.and_eq_true] at hw
+        simp only [List.length_append] at hlen hF
+        have hpos : 1 ≤ a.length := enc_pos g e v a he h1
+        obtain ⟨F', rfl⟩ : ∃ F', F = F' + 1 := ⟨F - 1, by omega⟩
+        obtain ⟨x, d1⟩ := hS e v a (c ++ r) dc dr F' he h1 hconf.1 hw.1 (by omega) (by omega)
+        obtain ⟨xs, d2⟩ := hL e vs c r dc dr F' he h2 hconf.2 hw.2 (by omega) (by omega)
+        exact ⟨.cons x xs, by simp only [List.length_cons, decodeItems, List.append_assoc, d1, d2]⟩
+
+
+
+theorem wF_step (g : Nat) (hS : WS g) (hF : WFld g) : WFld (g + 1) := by
+  intro fs vs cnt b r dc dr F hfs henc hconf hw hlen hFu
+  obtain ⟨F', rfl⟩ : ∃ F', F = F' + 1 := ⟨F - 1, by omega⟩
+  cases fs with
+  | nil =>
+    cases vs with
+    | nil =>
+      simp [encodeFields] at henc
+      obtain ⟨rfl, rfl⟩ := henc
+      exact ⟨by simp [Fields.slots], .nil, by simp [decodeItems]⟩
+    | cons v vs => simp [encodeFields] at henc
+  | cons s o rest =>
+    cases vs with
+    | nil => simp [encodeFields] at henc
+    | cons v vs =>
+      simp only [confFields, Bool.and_eq_true] at hconf
+      simp only [wconfFields, Bool.and_eq_true] at hw
+      simp only [Fields.ptrDepth] at hFu
+      have hfs' : s.inFragment = true ∧ rest.inFragment = true := by
+        cases o
+        · cases s <;> simpa [Fields.inFragment] using hfs
+        · cases s <;> simp [Fields.inFragment, Schema.inFragment] at hfs ⊢ <;> exact hfs
+      by_cases hskip : (o = true ∧ isEmptyAt s v = true)
+      · simp only [encodeFields, hskip, and_self, if_true] at henc
+        simp only [hskip.1, if_true] at hFu
+        obtain ⟨hc, xs, hx⟩ := hF rest vs cnt b r dc dr F' hfs'.2 henc hconf.2 hw.2 hlen (by omega)
+        refine ⟨by simp [Fields.slots]; omega, xs, ?_⟩
+        -- one step more of fuel than needed
+        cases cnt with
+        | zero => simp [decodeItems] at hx ⊢; exact hx
+        | succ n => exact decodeItems_fuel F' dr (n + 1) (b ++ r) xs r hx (F' + 1) (by
+            have := decodeItems_len F' dr (n+1) (b ++ r) xs r hx
+            simp at this ⊢; omega)
+      · have hne : ¬ (o = true ∧ isEmptyAt s v = true) := hskip
+        simp only [encodeFields, hne, if_false] at henc
+        cases h1 : encodeS g s v with
+        | none => simp [h1] at henc
+        | some a =>
+          cases h2 : encodeFields g rest vs with
+          | none => simp [h1, h2] at henc
+          | some q =>
+            obtain ⟨n, c⟩ := q
+            simp [h1, h2] at henc
+            obtain ⟨rfl, rfl⟩ := henc
+            simp only [List.length_append] at hlen hFu
+            have hpos := enc_pos g s v a hfs'.1 h1
+            obtain ⟨x, d1⟩ := hS s v a (c ++ r) dc dr F' hfs'.1 h1 hconf.1 hw.1 (by omega) (by omega)
+            obtain ⟨hc, xs, d2⟩ := hF rest vs n c r dc dr F' hfs'.2 h2 hconf.2 hw.2 (by omega) (by omega)
+            exact ⟨by simp [Fields.slots]; omega, .cons x xs, by simp only [decodeItems, List.append_assoc, d1, d2]⟩
+  | hdr fs =>
+    simp only [Fields.inFragment] at hfs
+    simp only [Fields.ptrDepth] at hFu
+    cases vs with
+    | nil => simp [encodeFields] at henc
+    | cons v vs =>
+      cases v <;> try (simp [encodeFields] at henc; done)
+      rename_i pm um
+      simp only [confFields, Bool.and_eq_true, hdrMapOK, decide_eq_true_eq] at hconf
+      obtain ⟨⟨⟨⟨⟨pe, psb⟩, pl⟩, pml⟩, ⟨⟨⟨ue, usb⟩, ul⟩, _⟩⟩, hcf⟩ := hconf
+      have ps := hdrSortedB_sound pm psb
+      have us := hdrSortedB_sound um usb
+      simp only [wconfFields, Bool.and_eq_true, decide_eq_true_eq] at hw
+      simp only [encodeFields] at henc
+      cases h2 : encodeFields g fs vs with
+      | none => simp [h2] at henc
+      | some q =>
+        obtain ⟨n, c⟩ := q
+        simp [h2] at henc
+        obtain ⟨rfl, rfl⟩ := henc
+        simp only [List.length_append] at hlen hFu
+        have hul := encHdrMap_len um ue us
+        obtain ⟨F'', rfl⟩ : ∃ F'', F' = F'' + 1 := ⟨F' - 1, by omega⟩
+        -- protected bucket: a byte string
+        have hprot : ∃ p : Bytes, (if pm = [] then [0x40] else encHead 2 (encHdrMap pm).length ++ encHdrMap pm) = p ∧ 1 ≤ p.length ∧
+            ∀ rest, ∃ x, decode (F'' + 1) dr (p ++ rest) = some (x, rest) := by
+          by_cases hpe : pm = []
+          · subst hpe
+            refine ⟨[0x40], by simp, by simp, ?_⟩
+            intro rest; exact ⟨.bstr [], by simp [decode, decHead, maxLen]⟩
+          · have hh := encHead_length_pos 2 (encHdrMap pm).length
+            refine ⟨_, if_neg hpe, by simp; omega, ?_⟩
+            intro rest
+            obtain ⟨ai, hd⟩ := decHead_encHead 2 (encHdrMap pm).length (encHdrMap pm ++ rest) (by omega) (by simp [maxLen] at pml; omega)
+            refine ⟨.bstr (encHdrMap pm), ?_⟩
+            simp only [decode, List.append_assoc, hd]
+            have : ¬ ((encHdrMap pm).length ≥ maxLen ∨ (encHdrMap pm ++ rest).length < (encHdrMap pm).length) := by simp; omega
+            simp [this]; exact pml
+        obtain ⟨p, hp, hp1, hdec⟩ := hprot
+        rw [hp] at hlen hFu ⊢
+        obtain ⟨xp, hxp⟩ := hdec (encHdrMap um ++ (c ++ r))
+        obtain ⟨xu, hxu⟩ := decode_hdrMap um (c ++ r) F'' dr ue us ul hw.1 (by omega)
+        obtain ⟨hc, xs, d2⟩ := hF fs vs n c r dc dr F'' hfs h2 hcf hw.2 (by omega) (by omega)
+        refine ⟨by simp [Fields.slots]; omega, .cons xp (.cons xu xs), ?_⟩
+        have e : p ++ (encHdrMap um ++ c) ++ r = p ++ (encHdrMap um ++ (c ++ r)) := by simp [List.append_assoc]
+        rw [e]
+        simp only [decodeItems, hxp, hxu, d2]
+
+
+
+theorem wS_step (g : Nat) (hS : WS g) (hL : WL g) (hF : WFld g) : WS (g + 1) := by
+  intro s v b r dc dr F hs henc hconf hw hlen hFu
+  obtain ⟨F', rfl⟩ : ∃ F', F = F' + 1 := ⟨F - 1, by omega⟩
+  cases s with
+  | uint max =>
+    simp only [Schema.inFragment, decide_eq_true_eq] at hs
+    cases v <;> try (simp [encodeS] at henc; done)
+    rename_i n
+    simp [encodeS] at henc; subst henc
+    simp only [conf, decide_eq_true_eq] at hconf
+    obtain ⟨ai, hd⟩ := decHead_encHead 0 n r (by omega) (by omega)
+    exact ⟨.uint n, by simp [decode, hd]⟩
+  | int bits =>
+    cases v <;> try (simp [encodeS] at henc; done)
+    rename_i i
+    simp only [Schema.inFragment, decide_eq_true_eq] at hs
+    simp only [conf, decide_eq_true_eq] at hconf
+    have hp : (2 : Int) ^ (bits - 1) ≤ 2 ^ 63 := by
+      have : bits - 1 ≤ 63 := by omega
+      exact_mod_cast Nat.pow_le_pow_right (by decide : 1 ≤ 2) this
+    by_cases hi : i ≥ 0
+    · simp [encodeS, hi] at henc; subst henc
+      obtain ⟨ai, hd⟩ := decHead_encHead 0 i.toNat r (by omega) (by omega)
+      exact ⟨.uint i.toNat, by simp [decode, hd]⟩
+    · simp [encodeS, hi] at henc; subst henc
+      obtain ⟨ai, hd⟩ := decHead_encHead 1 (-1 - i).toNat r (by omega) (by omega)
+      exact ⟨.nint (-1 - i).toNat, by simp [decode, hd]⟩
+  | bool =>
+    cases v <;> try (simp [encodeS] at henc; done)
+    rename_i bv
+    simp [encodeS] at henc; subst henc
+    cases bv
+    · exact ⟨.simple 20, by simp [decode, decHead]⟩
+    · exact ⟨.simple 21, by simp [decode, decHead]⟩
+  | bytes =>
+    cases v <;> try (simp [encodeS] at henc; done)
+    rename_i bb
+    simp [encodeS] at henc; subst henc
+    simp only [conf, decide_eq_true_eq] at hconf
+    obtain ⟨ai, hd⟩ := decHead_encHead 2 bb.length (bb ++ r) (by omega) (by simp [maxLen] at hconf; omega)
+    refine ⟨.bstr bb, ?_⟩
+    simp only [decode, List.append_assoc, hd]; simp; omega
+  | text =>
+    cases v <;> try (simp [encodeS] at henc; done)
+    rename_i bb
+    simp [encodeS] at henc; subst henc
+    simp only [conf, decide_eq_true_eq] at hconf
+    obtain ⟨ai, hd⟩ := decHead_encHead 3 bb.length (bb ++ r) (by omega) (by simp [maxLen] at hconf; omega)
+    refine ⟨.tstr bb, ?_⟩
+    simp only [decode, List.append_assoc, hd]; simp; omega
+  | fixed n =>
+    simp only [Schema.inFragment, decide_eq_true_eq] at hs
+    cases v <;> try (simp [encodeS] at henc; done)
+    rename_i bb
+    simp [encodeS] at henc; subst henc
+    simp only [conf, decide_eq_true_eq] at hconf
+    obtain ⟨ai, hd⟩ := decHead_encHead 2 bb.length (bb ++ r) (by omega) (by simp [maxLen] at hs; omega)
+    refine ⟨.bstr bb, ?_⟩
+    simp only [decode, List.append_assoc, hd]; simp; omega
+  | wrapBytes =>
+    cases v <;> try (simp [encodeS] at henc; done)
+    rename_i bb
+    simp [encodeS] at henc; subst henc
+    simp only [wconf, decide_eq_true_eq] at hw
+    obtain ⟨ai, hd⟩ := decHead_encHead 2 bb.length (bb ++ r) (by omega) (by simp [maxLen] at hw; omega)
+    refine ⟨.bstr bb, ?_⟩
+    simp only [decode, List.append_assoc, hd]; simp; omega
+  | bstr e =>
+    cases h1 : encodeS g e v with
+    | none => exfalso; cases v <;> simp [encodeS, h1] at henc
+    | some c =>
+      have hb : b = encHead 2 c.length ++ c := by cases v <;> (simp [encodeS, h1] at henc; exact henc.symm)
+      subst hb
+      have hw' : c.length < maxLen := by cases v <;> simpa [wconf, h1] using hw
+      obtain ⟨ai, hd⟩ := decHead_encHead 2 c.length (c ++ r) (by omega) (by simp [maxLen] at hw'; omega)
+      refine ⟨.bstr c, ?_⟩
+      simp only [decode, List.append_assoc, hd]; simp; omega
+  | wrap e =>
+    cases h1 : encodeS g e v with
+    | none => exfalso; cases v <;> simp [encodeS, h1] at henc
+    | some c =>
+      have hb : b = encHead 2 c.length ++ c := by cases v <;> (simp [encodeS, h1] at henc; exact henc.symm)
+      subst hb
+      have hw' : c.length < maxLen := by cases v <;> simpa [wconf, h1] using hw
+      obtain ⟨ai, hd⟩ := decHead_encHead 2 c.length (c ++ r) (by omega) (by simp [maxLen] at hw'; omega)
+      refine ⟨.bstr c, ?_⟩
+      simp only [decode, List.append_assoc, hd]; simp; omega
+  | slice e =>
+    simp only [Schema.ptrDepth] at hFu
+    simp only [Schema.inFragment] at hs
+    cases v <;> try (simp [encodeS] at henc; done)
+    rename_i vs
+    simp only [encodeS] at henc
+    cases h1 : encodeList g e vs with
+    | none => simp [h1] at henc
+    | some c =>
+      simp [h1] at henc; subst henc
+      simp only [conf, Bool.and_eq_true, decide_eq_true_eq] at hconf
+      simp only [wconf, Bool.and_eq_true, decide_eq_true_eq] at hw
+      simp only [List.length_append] at hlen hFu
+      have hp := encHead_length_pos 4 vs.length
+      obtain ⟨xs, d1⟩ := hL e vs c r (dc - 1) (dr - 1) F' hs h1 hconf.2 hw.2 (by omega) (by omega)
+      obtain ⟨ai, hd⟩ := decHead_encHead 4 vs.length (c ++ r) (by omega) (by have := hconf.1.2; simp [maxLen] at this; omega)
+      refine ⟨.arr xs, ?_⟩
+      simp only [decode, List.append_assoc, hd, d1]
+      have : ¬ (vs.length ≥ maxLen ∨ dr = 0) := by omega
+      simp [this]
+  | struct fs =>
+    simp only [Schema.ptrDepth] at hFu
+    simp only [Schema.inFragment, Bool.and_eq_true, decide_eq_true_eq] at hs
+    cases v <;> try (simp [encodeS] at henc; done)
+    rename_i vs
+    simp only [encodeS] at henc
+    cases h1 : encodeFields g fs vs with
+    | none => simp [h1] at henc
+    | some q =>
+      obtain ⟨cnt, c⟩ := q
+      simp [h1] at henc; subst henc
+      simp only [conf, Bool.and_eq_true, decide_eq_true_eq] at hconf
+      simp only [wconf, Bool.and_eq_true, decide_eq_true_eq] at hw
+      simp only [List.length_append] at hlen hFu
+      have hp := encHead_length_pos 4 cnt
+      obtain ⟨hc, xs, d1⟩ := hF fs vs cnt c r (dc - 1) (dr - 1) F' hs.1 h1 hconf.2 hw.2 (by omega) (by omega)
+      have hsl : fs.slots < 100000 := by have := hs.2.1; simpa [maxLen] using this
+      obtain ⟨ai, hd⟩ := decHead_encHead 4 cnt (c ++ r) (by omega) (by omega)
+      refine ⟨.arr xs, ?_⟩
+      simp only [decode, List.append_assoc, hd, d1]
+      have : ¬ (cnt ≥ maxLen ∨ dr = 0) := by simp [maxLen]; omega
+      simp [this]
+  | tagAny e =>
+    simp only [Schema.ptrDepth] at hFu
+    simp only [Schema.inFragment] at hs
+    cases v <;> try (simp [encodeS] at henc; done)
+    rename_i n x
+    simp only [encodeS] at henc
+    cases h1 : encodeS g e x with
+    | none => simp [h1] at henc
+    | some c =>
+      simp [h1] at henc; subst henc
+      simp only [conf, Bool.and_eq_true, decide_eq_true_eq] at hconf
+      simp only [wconf, Bool.and_eq_true, decide_eq_true_eq] at hw
+      simp only [List.length_append] at hlen hFu
+      have hp := encHead_length_pos 6 n
+      obtain ⟨x', d1⟩ := hS e x c r maxDepth (dr - 1) F' hs h1 hconf.2 hw.2 (by omega) (by omega)
+      obtain ⟨ai, hd⟩ := decHead_encHead 6 n (c ++ r) (by omega) hconf.1
+      refine ⟨.tag n x', ?_⟩
+      simp only [decode, List.append_assoc, hd, d1]
+      have : ¬ (dr = 0) := by omega
+      simp [this]
+  | tagNum n e =>
+    simp only [Schema.ptrDepth] at hFu
+    simp only [Schema.inFragment, Bool.and_eq_true, decide_eq_true_eq] at hs
+    cases v <;> try (simp [encodeS] at henc; done)
+    rename_i m x
+    simp only [encodeS] at henc
+    cases h1 : encodeS g e x with
+    | none => simp [h1] at henc
+    | some c =>
+      simp [h1] at henc; subst henc
+      simp only [conf, Bool.and_eq_true, decide_eq_true_eq] at hconf
+      simp only [wconf, Bool.and_eq_true, decide_eq_true_eq] at hw
+      simp only [List.length_append] at hlen hFu
+      have hp := encHead_length_pos 6 m
+      obtain ⟨x', d1⟩ := hS e x c r maxDepth (dr - 1) F' hs.1 h1 hconf.1.2 hw.2 (by omega) (by omega)
+      obtain ⟨ai, hd⟩ := decHead_encHead 6 m (c ++ r) (by omega) (by have := hconf.1.1.1; omega)
+      refine ⟨.tag m x', ?_⟩
+      simp only [decode, List.append_assoc, hd, d1]
+      have : ¬ (dr = 0) := by omega
+      simp [this]
+  | ptr e =>
+    simp only [Schema.ptrDepth] at hFu
+    simp only [Schema.inFragment, Bool.and_eq_true] at hs
+    cases v <;> try (simp [encodeS] at henc; done)
+    · simp [encodeS] at henc; subst henc
+      exact ⟨.simple 22, by simp [decode, decHead]⟩
+    · rename_i x
+      simp only [encodeS] at henc
+      simp only [conf] at hconf
+      simp only [wconf] at hw
+      obtain ⟨x', d1⟩ := hS e x b r dc dr F' hs.1 henc hconf hw hlen (by omega)
+      exact ⟨x', decode_fuel F' dr (b ++ r) x' r d1 (F' + 1) (by
+        have := decode_len F' dr (b ++ r) x' r d1
+        simp at this ⊢; omega)⟩
+  | raw =>
+    simp only [Schema.ptrDepth] at hFu
+    cases v <;> try (simp [encodeS] at henc; done)
+    rename_i rb
+    simp only [wconf] at hw
+    cases hdq : decode (2 * rb.length + 1) dr rb with
+    | none => simp [hdq] at hw
+    | some q =>
+      obtain ⟨x, rr⟩ := q
+      cases rr with
+      | cons _ _ => simp [hdq] at hw
+      | nil =>
+        have hne : rb ≠ [] := by
+          intro h0; subst h0; simp [decode, decHead] at hdq
+        have hie : rb.isEmpty = false := by cases rb <;> simp_all
+        simp [encodeS, hie] at henc
+        subst henc
+        have h2 := decode_fuel _ dr rb x [] hdq (F' + 1) (by simp; omega)
+        exact ⟨x, by simpa using decode_append (F' + 1) dr rb r x [] h2⟩
+  | _ => simp [Schema.inFragment] at hs
+
+theorem w_all (g : Nat) : WS g ∧ WL g ∧ WFld g := by
+  induction g with
+  | zero =>
+    refine ⟨?_, ?_, ?_⟩
+    · intro s v b r dc dr F _ henc; simp [encodeS] at henc
+    · intro e vs b r dc dr F _ henc; simp [encodeList] at henc
+    · intro fs vs cnt b r dc dr F _ henc; simp [encodeFields] at henc
+  | succ g ih =>
+    obtain ⟨hS, hL, hF⟩ := ih
+    exact ⟨wS_step g hS hL hF, wL_step g hS hL, wF_step g hS hF⟩
+
 
 /-- the three statements proved together by induction on the encoder's fuel -/
 def RtS (ok : CertOracle) (g : Nat) : Prop :=
@@ -182,7 +613,78 @@ theorem rtF_step (ok : CertOracle) (g : Nat) (hS : RtS ok g) (hF : RtF ok g) : R
       obtain ⟨rfl, rfl⟩ := henc
       left; simp [decodeFields, Fields.slots]
     | cons v vs => simp [encodeFields] at henc
-  | hdr fs => simp [Fields.inFragment] at hfs
+  | hdr fs =>
+    simp only [Fields.inFragment] at hfs
+    have hom' : fs.omittables ≤ 1 := by simpa [Fields.omittables] using hom
+    simp only [Fields.ptrDepth] at hf
+    cases vs with
+    | nil => simp [encodeFields] at henc
+    | cons v vs =>
+      cases v <;> try (simp [encodeFields] at henc; done)
+      rename_i pm um
+      simp only [confFields, Bool.and_eq_true, hdrMapOK, decide_eq_true_eq] at hconf
+      obtain ⟨⟨⟨⟨⟨pe, psb⟩, pl⟩, pml⟩, ⟨⟨⟨ue, usb⟩, ul⟩, _⟩⟩, hcf⟩ := hconf
+      have ps := hdrSortedB_sound pm psb
+      have us := hdrSortedB_sound um usb
+      simp only [encodeFields] at henc
+      cases h2 : encodeFields g fs vs with
+      | none => simp [h2] at henc
+      | some q =>
+        obtain ⟨n, c⟩ := q
+        simp [h2] at henc
+        obtain ⟨rfl, rfl⟩ := henc
+        simp only [List.length_append] at hlen hf
+        have hul := encHdrMap_len um ue us
+        -- the protected bucket: an empty byte string, or the byte string holding the map
+        have hprot : ∃ p : Bytes, (if pm = [] then [0x40] else encHead 2 (encHdrMap pm).length ++ encHdrMap pm) = p ∧ 1 ≤ p.length ∧
+            pm.length + 1 ≤ 2 * p.length ∧
+            ∀ rest, ∃ pb, decodeS ok f' maxDepth .bytes (p ++ rest) = some (.bytes pb, rest) ∧
+              ((pb.isEmpty = true ∧ pm = []) ∨ (pb.isEmpty = false ∧ decodeHdrMap f' maxDepth pb = some (pm, []))) := by
+          by_cases hpe : pm = []
+          · subst hpe
+            refine ⟨[0x40], by simp, by simp, by simp, ?_⟩
+            intro rest
+            refine ⟨[], ?_, Or.inl ⟨rfl, rfl⟩⟩
+            obtain ⟨ff, hff⟩ : ∃ ff, f' = ff + 1 := ⟨f' - 1, by omega⟩
+            subst hff
+            simp [decodeS, decHead, maxLen]
+          · have hpl := encHdrMap_len pm pe ps
+            have hh := encHead_length_pos 2 (encHdrMap pm).length
+            refine ⟨_, if_neg hpe, by simp; omega, by simp; omega, ?_⟩
+            intro rest
+            refine ⟨encHdrMap pm, ?_, ?_⟩
+            · obtain ⟨ai, hd, _⟩ := decHead_encHead28 2 (encHdrMap pm).length (encHdrMap pm ++ rest) (by omega) (by simp [maxLen] at pml; omega)
+              obtain ⟨ff, hff⟩ : ∃ ff, f' = ff + 1 := ⟨f' - 1, by omega⟩
+              subst hff
+              simp only [decodeS, List.append_assoc, hd]
+              have : ¬ ((encHdrMap pm).length ≥ maxLen ∨ (encHdrMap pm ++ rest).length < (encHdrMap pm).length) := by simp; omega
+              simp [this]; exact pml
+            · have hne : (encHdrMap pm).isEmpty = false := by
+                cases hq : encHdrMap pm with
+                | nil => rw [hq] at hpl; simp at hpl
+                | cons _ _ => rfl
+              have hf' := hf
+              rw [if_neg hpe] at hf'
+              simp only [List.length_append] at hf'
+              have hrt := decodeHdrMap_rt pm [] f' maxDepth pe ps pl (by simp [maxDepth]) (by omega)
+              simp only [List.append_nil] at hrt
+              exact Or.inr ⟨hne, hrt⟩
+        obtain ⟨p, hp, hp1, hp2, hdec⟩ := hprot
+        rw [hp] at hlen hf ⊢
+        have hum := decodeHdrMap_rt um (c ++ r) f' maxDepth ue us ul (by simp [maxDepth]) (by omega)
+        obtain ⟨pb, hdb, hpm⟩ := hdec (encHdrMap um ++ (c ++ r))
+        have step : ∀ skip vs', decodeFields ok f' d fs skip (c ++ r) = some (vs', r) →
+            decodeFields ok (f' + 1) d (.hdr fs) skip (p ++ encHdrMap um ++ c ++ r) = some (.hdr pm um :: vs', r) := by
+          intro skip vs' hrest
+          simp only [decodeFields, List.append_assoc, hdb]
+          rcases hpm with ⟨e1, e2⟩ | ⟨e1, e2⟩
+          · subst e2; simp only [e1, if_true, hum, hrest]
+          · simp only [e1, Bool.false_eq_true, if_false, e2, hum, hrest]
+        rcases hF fs vs n c r d f' hfs hom' h2 hcf (by omega) (by omega) with ⟨l2, d2⟩ | ⟨o2, l2, d2⟩
+        · left
+          exact ⟨by simp [Fields.slots, l2], by simpa [List.append_assoc] using step false vs d2⟩
+        · right
+          exact ⟨by simpa [Fields.omittables] using o2, by simp [Fields.slots]; omega, by simpa [List.append_assoc] using step true vs d2⟩
   | cons s o rest =>
     cases vs with
     | nil => simp [encodeFields] at henc
@@ -485,6 +987,40 @@ theorem rtS_step (ok : CertOracle) (g : Nat) (hS : RtS ok g) (hL : RtL ok g) (hF
         have h3 := decode_append f' d rb r x [] h2
         refine ⟨?_, by cases rb <;> simp_all⟩
         simp only [decodeS, h3]; simp
+  | tagNum n e =>
+    simp only [Schema.ptrDepth] at hf
+    simp only [Schema.inFragment, Bool.and_eq_true, decide_eq_true_eq] at hs
+    cases v <;> try (simp [encodeS] at henc; done)
+    rename_i m x
+    simp only [encodeS] at henc
+    cases h1 : encodeS g e x with
+    | none => simp [h1] at henc
+    | some c =>
+      simp [h1] at henc; subst henc
+      simp only [conf, Bool.and_eq_true, decide_eq_true_eq] at hconf
+      obtain ⟨⟨⟨hmn, hd1⟩, hce⟩, hwe⟩ := hconf
+      subst hmn
+      simp only [List.length_append] at hlen hf
+      have hp := encHead_length_pos 6 m
+      obtain ⟨f'', rfl⟩ : ∃ f'', f' = f'' + 1 := ⟨f' - 1, by omega⟩
+      -- the wrapper's raw pass delimits the item
+      obtain ⟨x', dx⟩ := (w_all g).1 e x c r maxDepth (d - 1) f'' hs.1 h1 hce hwe (by omega) (by omega)
+      obtain ⟨ai, hd, hai⟩ := decHead_encHead28 6 m (c ++ r) (by omega) hs.2
+      have hraw : decode (f'' + 1) d (encHead 6 m ++ c ++ r) = some (.tag m x', r) := by
+        simp only [decode, List.append_assoc, hd, dx]
+        have : ¬ (d = 0) := by omega
+        simp [this]
+      -- the typed pass on exactly those bytes
+      obtain ⟨d1, l1⟩ := hS e x c [] maxDepth f'' hs.1 h1 hce (by omega) (by omega)
+      obtain ⟨ai2, hd2, hai2⟩ := decHead_encHead28 6 m c (by omega) hs.2
+      simp only [List.append_nil] at d1
+      have htyped : decodeS ok (f'' + 1) maxDepth (.tagAny e) (encHead 6 m ++ c) = some (.tag m x, []) := by
+        simp only [decodeS, hd2, d1]
+        have : ¬ (ai2 ≥ 28) := by omega
+        simp [this]
+      refine ⟨?_, by simp; omega⟩
+      simp only [decodeS, hraw, take_prefix, htyped]
+      simp
   | _ => simp [Schema.inFragment] at hs
 
 
@@ -513,5 +1049,6 @@ theorem unmarshalS_marshalS (ok : CertOracle) (s : Schema) (v : Val) (b : Bytes)
   have := decodeS_encodeS ok 10000 s v b [] maxDepth (2 * b.length + 64) hs henc hconf hlen (by omega)
   simp only [List.append_nil] at this
   simp [unmarshalS, this]
+
 
 end Fdo.Cbor
